@@ -17,7 +17,9 @@ def first_requests(draw):
   return {"requests": reqs, "schedule": [list(x) for x in draw(fine)],
           "slow": draw(st.sampled_from([0.0, 0.5, 3.0, 30.0])),
           # one case in eight asks, drops every reference, collects garbage and asks again instead
-          "lifetime": draw(st.integers(0, 7)) == 0}
+          "lifetime": draw(st.integers(0, 7)) == 0,
+          # the requesting threads are not threading.Thread objects (started by _thread / a C library)
+          "raw": draw(st.integers(0, 2)) == 0}
 
 
 class C30(Prop):
@@ -28,7 +30,7 @@ class C30(Prop):
           "miros/singleton.py, miros/activeobject.py and miros/event.py; run lengths 1-6 so that "
           "switches fall between a singleton's 'is there an instance?' test and its store): every "
           "case starts from fresh singletons (no instance yet, as in a new process) and 2-4 threads "
-          "each make 1-3 first requests from ActiveFabric(), the fabric run event "
+          "(in a third of the cases OS threads started with _thread.start_new_thread, which the threading module does not count) each make 1-3 first requests from ActiveFabric(), the fabric run event "
           "(FiberThreadEvent()), the live-output writer (InstrumentionWriter()), constructing an "
           "ActiveObject (which requests all three), Signal(), ReturnStatus(), and a harness class whose construction takes 0-30 s "
           "of virtual time behind the same SingletonDecorator. Oracle: every "
@@ -134,7 +136,7 @@ class C30(Prop):
       seen["signal"].append(ev.signals)
       seen["return_status"].append(ev.return_status)
 
-    s = detsched.Scheduler(schedule=case["schedule"], step_limit=300000,
+    s = detsched.Scheduler(schedule=case["schedule"], step_limit=300000, raw_threads=bool(case.get("raw")),
                            trace_files=[files["singleton"], files["activeobject"], files["event"]])
     try:
       detsched.guarded_run(s, body)
@@ -157,7 +159,8 @@ class C30(Prop):
       if askers >= 2:
         shared.add(k)
     stats.case(case, bool(shared) and info["inside"] > 0,
-               ["switch_inside_wrapper" if info["inside"] else "no_switch_inside_wrapper"])
+               ["switch_inside_wrapper" if info["inside"] else "no_switch_inside_wrapper"] +
+               (["threads_unknown_to_threading_module"] if case.get("raw") else []))
     for k, objs in seen.items():
       ids = set(id(o) for o in objs)
       if len(ids) > 1:
